@@ -21,9 +21,10 @@ RULE = ("TLC cross-check: the complete state graph of an independently written T
         "the tracker) and the tracker's JSON file are compared with the reference model. Histories are NOT merged (hidden state such as caches "
         "must not hide); 'states' counts distinct (counters, file hash) snapshots. non-trivial = history with a valid call that executes >= 1 circuit")
 RULE += ' Also: a circuit with two consecutive non-gate operations (one non-native segment).'
+RULE += ' Round 6: requests that fail in the backend part-way through a batch (counters grow by the completed work and never go back, also relative to readings taken during the call).'
 RULE += ' Round 5: batches of 63-130 circuits on every runner kind.'
 ASSUMPTIONS = ["sampling randomness is scripted (default answers); counters are observed through n_circuits_executed / n_jobs_executed",
-               "zero-width circuits and batches mixing unbound circuits are outside the alphabet", "what the tracker's own job counter does for a batch / a distribution call is not fixed by the statement: only monotonicity is required there"]
+               "zero-width circuits are outside the alphabet; a batch containing an unbound circuit / a circuit the backend refuses is judged in the partial_failures section only (completed work counted, failure surfaced)", "what the tracker's own job counter does for a batch / a distribution call is not fixed by the statement: only monotonicity is required there"]
 BOUNDS = {"quick": {"history_depth": 2, "events": "full menu"}, "thorough": {"history_depth": 3, "events": "full menu at depth<=2, core menu at depth 3"}}
 
 CIRCUITS = [
@@ -327,7 +328,89 @@ def tlc_edge_case(case):
         shutil.rmtree(workdir, ignore_errors=True)
 
 
-FUNCS = {"big_batches": history_case, "histories": history_case, "tlc_edges": tlc_edge_case}
+def partial_case(case):
+    """{'kind': flaky | track:flaky | symbolic | basesim | track:symbolic, 'hist': [events]}: requests that pass validation but FAIL IN THE BACKEND part-way (a runner whose
+    backend raises for one circuit; a simulator handed an unbound circuit inside a batch). The failure must surface as an exception; the counters never decrease - not even
+    relative to a reading taken DURING the call - and grow by exactly the work that was completed (the runner's own completion log is the witness)"""
+    from orquestra.quantum.api.circuit_runner import BaseCircuitRunner
+    from orquestra.quantum.api.wavefunction_simulator import BaseWavefunctionSimulator
+    from orquestra.quantum.measurements import Measurements
+    from orquestra.quantum.runners.symbolic_simulator import SymbolicSimulator
+    from orquestra.quantum.runners.trackers import MeasurementTrackingBackend
+    kind = case["kind"]
+    circuits = [mk_circuit(c) for c in CIRCUITS]
+    ids = {id(c): i for i, c in enumerate(circuits)}
+    POISON = 5
+    done, readings = [], []
+
+    class Flaky(BaseCircuitRunner):
+        def _run_and_measure(self, circuit, n_samples):
+            readings.append((self.n_circuits_executed, self.n_jobs_executed))
+            if ids.get(id(circuit)) == POISON:
+                raise RuntimeError("backend refused circuit %d" % POISON)
+            done.append(ids.get(id(circuit), -1))
+            return Measurements([tuple(0 for _ in range(circuit.n_qubits))] * n_samples)
+
+    class Sym(SymbolicSimulator):
+        def _get_wavefunction_from_native_circuit(self, circuit, initial_state):
+            readings.append((self.n_circuits_executed, self.n_jobs_executed))
+            r = super()._get_wavefunction_from_native_circuit(circuit, initial_state)
+            done.append("native")
+            return r
+
+    class BaseSim(BaseWavefunctionSimulator):
+        def _get_wavefunction_from_native_circuit(self, circuit, initial_state):
+            readings.append((self.n_circuits_executed, self.n_jobs_executed))
+            s_ = np.asarray(initial_state, dtype=complex)
+            for o in circuit.operations:
+                s_ = L.embed(np.array(o.gate.matrix, dtype=complex), tuple(o.qubit_indices), circuit.n_qubits) @ s_
+            done.append("native")
+            return s_
+
+    workdir = tempfile.mkdtemp(prefix="c14p.", dir=os.environ.get("VERIF_SCRATCH", "/dev/shm" if os.path.isdir("/dev/shm") else "/var/tmp"))
+    try:
+        ik = kind.split(":")[-1]
+        inner = {"flaky": Flaky, "symbolic": lambda: Sym(seed=3), "basesim": lambda: BaseSim(seed=3)}[ik]()
+        runner = MeasurementTrackingBackend(inner, os.path.join(workdir, "raw.json"), record_bitstrings=False) if kind.startswith("track") else inner
+        bad_ci = POISON if ik == "flaky" else 4        # circuit 4 is unbound: a simulator cannot run it
+        failed_any = False
+        for step_no, ev in enumerate(case["hist"]):
+            cis = [ev[1]] if ev[0] == "run" else list(ev[1])
+            fails = bad_ci in cis
+            before = (runner.n_circuits_executed, runner.n_jobs_executed, inner.n_circuits_executed, inner.n_jobs_executed, len(done))
+            del readings[:]
+            exc = None
+            with seams.owned_rng(seams.Script()):
+                try:
+                    if ev[0] == "run":
+                        runner.run_and_measure(circuits[ev[1]], ev[2])
+                    else:
+                        runner.run_batch_and_measure([circuits[i] for i in ev[1]], ev[2])
+                except seams.UnownedRandomness:
+                    raise
+                except Exception as e:  # noqa: BLE001
+                    exc = e
+            after = (runner.n_circuits_executed, runner.n_jobs_executed, inner.n_circuits_executed, inner.n_jobs_executed, len(done))
+            where = "call %d %s on %s" % (step_no + 1, ev, kind)
+            if fails and exc is None:
+                return {"ok": False, "msg": where + ": the backend failed for circuit %d but the call returned normally" % bad_ci, "sig": "partial:swallowed"}
+            if not fails and exc is not None:
+                return {"ok": False, "msg": where + ": valid request raised %s: %s" % (type(exc).__name__, exc), "sig": "partial:raised"}
+            if any(a < b for a, b in zip(after[:4], before[:4])):
+                return {"ok": False, "msg": where + ": a counter decreased", "expected": str(before[:4]), "observed": str(after[:4]), "sig": "partial:decreased"}
+            if readings and (max(r[0] for r in readings) > after[2] or max(r[1] for r in readings) > after[3]):
+                return {"ok": False, "msg": where + ": a counter reading taken during the call (%s) is higher than the counters after it %s" % (max(readings), after[2:4]), "sig": "partial:went-back"}
+            completed = after[4] - before[4]
+            if after[2] - before[2] != completed or after[3] - before[3] != completed:
+                return {"ok": False, "msg": where + ": %d executions were completed%s, the runner's counters grew by %s" % (completed, " before the backend failed" if fails else "",
+                        (after[2] - before[2], after[3] - before[3])), "expected": str((completed, completed)), "observed": str((after[2] - before[2], after[3] - before[3])), "sig": "partial:delta"}
+            failed_any = failed_any or fails
+        return {"ok": True, "nt": failed_any, "ops": len(case["hist"]), "key": jdump([kind, after[:4]]) if case["hist"] else kind, "out": kind}
+    finally:
+        shutil.rmtree(workdir, ignore_errors=True)
+
+
+FUNCS = {"partial_failures": partial_case, "big_batches": history_case, "histories": history_case, "tlc_edges": tlc_edge_case}
 
 
 def menu(core=False):
@@ -391,6 +474,11 @@ def run(run):
     secs = [Section("big_batches", big, history_case, horizon=300, chunk=4, desc="batches of 63-130 (thorough 257) circuits on every runner kind, alone, before / after single runs, and rejected for one bad entry")]
     secs += [Section("histories", cases, history_case, horizon=120, chunk=200,
                     desc="all call histories (full menu: %d events, core: %d) on %d runner kinds" % (len(full_all), len(core_all), len(KINDS)))]
+    pev = {k_: [["run", 1, 2], ["run", b_, 2], ["batch", [1, 2], 2], ["batch", [b_], 2], ["batch", [1, b_], 2], ["batch", [b_, 1], [2, 3]], ["batch", [1, 2, b_, 1], 2], ["batch", [2, 1, 2, b_], [1, 2, 3, 4]],
+                ["batch", [1, b_, b_, 2], 1]] for k_, b_ in (("flaky", 5), ("track:flaky", 5), ("symbolic", 4), ("basesim", 4), ("track:symbolic", 4))}
+    pc = [{"kind": k_, "hist": list(h)} for k_, evs in pev.items() for d_ in ((1, 2, 3) if thorough else (1, 2)) for h in itertools.product(evs, repeat=d_)]
+    secs.append(Section("partial_failures", pc, partial_case, horizon=120, desc="requests that fail in the backend part-way (a runner whose backend raises for one circuit, an unbound circuit inside a simulator batch): "
+                        "the failure surfaces, counters never go back - also relative to readings taken during the call - and grow by the completed work; all histories of <= 2 (thorough 3) of 9 events on 5 runner kinds"))
     from mc import tlc
     ok, out, dot, (gen, distinct) = tlc.run_tlc()
     if not ok:
